@@ -28,6 +28,7 @@
 #include "vh.h"
 
 vfs_t *vfs_cur;
+long vfs_default_rlimit = 1024;   /* RLIMIT_NOFILE answer of new file systems (env_init: fd limiter = this / 5) */
 static uint64_t next_ino = 1000;
 
 #define VDIR_MAGIC 0x56444952u
@@ -83,7 +84,7 @@ vfs_new(void) {
   v->fds = calloc(v->nfds, sizeof(vfd_t));
   v->fault.at = -1;
   v->fault.short_n = -1;
-  v->rlimit_nofile = 1024;
+  v->rlimit_nofile = vfs_default_rlimit;
   return v;
 }
 
